@@ -1418,8 +1418,8 @@ func (e *CoreExtension) filterFirst(value interface{}, args ...interface{}) (int
 		}
 		return nil, nil
 	case reflect.Map:
-		for _, key := range rv.MapKeys() {
-			return rv.MapIndex(key).Interface(), nil // Return first value found
+		for _, key := range sortedMapKeys(rv) {
+			return rv.MapIndex(key).Interface(), nil // Return first value in key order
 		}
 		return nil, nil
 	}
@@ -1720,7 +1720,7 @@ func (e *CoreExtension) filterKeys(value interface{}, args ...interface{}) (inte
 	if rv.Kind() == reflect.Map {
 		// For maps, return the keys as a slice of the same type as the keys
 		keys := make([]interface{}, 0, rv.Len())
-		for _, key := range rv.MapKeys() {
+		for _, key := range sortedMapKeys(rv) {
 			if key.CanInterface() {
 				keys = append(keys, key.Interface())
 			}
@@ -2292,6 +2292,27 @@ func (e *CoreExtension) functionParent(args ...interface{}) (interface{}, error)
 
 		return result.String(), nil
 	}, nil
+}
+
+// sortedMapKeys returns the keys of a map in an order that depends only on the
+// keys: numerically for numeric kinds, by their string form otherwise
+func sortedMapKeys(m reflect.Value) []reflect.Value {
+	keys := m.MapKeys()
+	sort.Slice(keys, func(i, j int) bool {
+		a, b := keys[i], keys[j]
+		switch a.Kind() {
+		case reflect.Int, reflect.Int8, reflect.Int16, reflect.Int32, reflect.Int64:
+			return a.Int() < b.Int()
+		case reflect.Uint, reflect.Uint8, reflect.Uint16, reflect.Uint32, reflect.Uint64, reflect.Uintptr:
+			return a.Uint() < b.Uint()
+		case reflect.Float32, reflect.Float64:
+			return a.Float() < b.Float()
+		case reflect.String:
+			return a.String() < b.String()
+		}
+		return fmt.Sprint(a.Interface()) < fmt.Sprint(b.Interface())
+	})
+	return keys
 }
 
 // Helper functions for debugging
